@@ -11,6 +11,10 @@
 //! `distinct_tuples_<flavour>` also covers Vec, nested Vec, Option, tuple, char, f64, `&str`, a destructuring
 //! pattern, arity 1 and 5 and a one-argument method (spec: /verif/notes/macro_history_spec.md, part A).
 //!
+//! `exhaustive_small_strings_<flavour>` is a small-scope EXHAUSTIVE check of key injectivity: every pair of strings over
+//! {a, |, ", \} with at most 5 characters in total (7737 tuples), also as `&str`, a receiver x every string of length <= 4,
+//! and Option<String> x String, each called once on an unbounded cache.
+//!
 //! Isolation between scenarios: global / async caches are emptied through `invalidate_with(name, |_| true)`
 //! (registered by the expansion on first use), thread-scope functions are driven on a fresh thread, and the
 //! instrumentation slot of every function a scenario touches is reset first. No scenario depends on another
@@ -721,6 +725,70 @@ fn sel_m1(kind: Kind) -> F<fn(&(u32, u32)) -> u64> {
     }
 }
 
+// ------------------------------------------------------------------------------------------------
+// exhaustive_small_strings: unbounded functions whose EVERY small argument tuple is called (C02 / C01)
+// ------------------------------------------------------------------------------------------------
+fn tw_xs2(a: &String, b: &String) -> String {
+    format!("xs2 {}{}", enc_str(a), enc_str(b))
+}
+fn tw_xo(a: &Option<String>, b: &String) -> String {
+    format!("xo {} {}", enc_opt(a), enc_str(b))
+}
+fn tw_xm(id: u32, a: &str) -> String {
+    format!("xm {id} {}", enc_str(a))
+}
+shape!(sel_xs2, g_xs2, t_xs2, a_xs2, (a: String, b: String) -> String, tw_xs2);
+shape!(sel_xo, g_xo, t_xo, a_xo, (a: Option<String>, b: String) -> String, tw_xo);
+// borrowed strings: the sync flavours build the key of a `&str` through another impl than that of a `String`
+#[cache]
+fn g_xs2r(a: &str, b: &str) -> String {
+    instr::ran("g_xs2r");
+    tw_xs2(&a.to_string(), &b.to_string())
+}
+#[cache(scope = "thread")]
+fn t_xs2r(a: &str, b: &str) -> String {
+    instr::ran("t_xs2r");
+    tw_xs2(&a.to_string(), &b.to_string())
+}
+#[cache_async]
+async fn a_xs2r(a: &str, b: &str) -> String {
+    instr::ran("a_xs2r");
+    tw_xs2(&a.to_string(), &b.to_string())
+}
+fn sel_xs2r(kind: Kind) -> F<fn(&(String, String)) -> String> {
+    match kind {
+        Kind::Global => f!("g_xs2r", |t| g_xs2r(&t.0, &t.1)),
+        Kind::Thread => f!("t_xs2r", |t| t_xs2r(&t.0, &t.1)),
+        Kind::Async => f!("a_xs2r", |t| block_on(a_xs2r(&t.0, &t.1))),
+    }
+}
+// the boundary between the receiver and the one argument
+impl Recv {
+    #[cache]
+    fn g_xm(&self, a: String) -> String {
+        instr::ran("g_xm");
+        tw_xm(self.id, &a)
+    }
+    #[cache(scope = "thread")]
+    fn t_xm(&self, a: String) -> String {
+        instr::ran("t_xm");
+        tw_xm(self.id, &a)
+    }
+    #[cache_async]
+    async fn a_xm(&self, a: String) -> String {
+        instr::ran("a_xm");
+        tw_xm(self.id, &a)
+    }
+}
+/// (receiver id, argument)
+fn sel_xm(kind: Kind) -> F<fn(&(u32, String)) -> String> {
+    match kind {
+        Kind::Global => f!("g_xm", |t| Recv { id: t.0 }.g_xm(t.1.clone())),
+        Kind::Thread => f!("t_xm", |t| Recv { id: t.0 }.t_xm(t.1.clone())),
+        Kind::Async => f!("a_xm", |t| block_on(Recv { id: t.0 }.a_xm(t.1.clone()))),
+    }
+}
+
 
 fn flavour(kind: Kind) -> Fl {
     match kind {
@@ -1307,6 +1375,178 @@ fn distinct_shapes(kind: Kind, ctx: &Ctx) -> Result<(), Fail> {
     .map(|(a, b)| (s(a), s(b)))
     .collect();
     run(ctx, kind, sel_strs_ref(kind), strs_ref, &|t| twin_strs(&t.0, &t.1))
+}
+
+// ------------------------------------------------------------------------------------------------
+// C02 / C01 exhaustive_small_strings: small-scope EXHAUSTIVE check of key injectivity
+// ------------------------------------------------------------------------------------------------
+/// Every string over `alphabet` of at most `max` characters, shortest first.
+fn strings_upto(alphabet: &[char], max: usize) -> Vec<String> {
+    let mut all = vec![String::new()];
+    let mut last = vec![String::new()];
+    for _ in 0..max {
+        let mut next = Vec::with_capacity(last.len() * alphabet.len());
+        for s in &last {
+            for c in alphabet {
+                let mut t = s.clone();
+                t.push(*c);
+                next.push(t);
+            }
+        }
+        all.extend(next.iter().cloned());
+        last = next;
+    }
+    all
+}
+
+/// Calls the UNBOUNDED function once on every tuple (seeded shuffled order) on empty caches: nothing is ever evicted,
+/// so the body must run exactly once per tuple and every value must be the twin's. A call that is served (no body run)
+/// collided with an earlier tuple: the value it was served names that tuple (the twin is injective); a second pass calls
+/// every tuple again and counts how many are served a value that is not their own.
+fn check_exhaustive<T, V>(ctx: &Ctx, kind: Kind, f: F<fn(&T) -> V>, tuples: &[T], twin: &(dyn Fn(&T) -> V + Sync), salt: u64) -> Result<(), Fail>
+where
+    T: Debug + Sync,
+    V: Debug + Eq + std::hash::Hash,
+{
+    let (fname, call) = (f.name, f.call);
+    let flavour = kind.name();
+    step(format!("{fname}: every one of {} tuples once", tuples.len()));
+    let seed = ctx.seed;
+    let findings: Vec<Fail> = fresh(kind, &[fname], || {
+        let mut found: Vec<Fail> = Vec::new();
+        let mut order: Vec<usize> = (0..tuples.len()).collect();
+        Rng::new(seed ^ salt).shuffle(&mut order);
+        // the twin's value -> tuple that owns it, for the tuples called so far
+        let mut owner: std::collections::HashMap<V, usize> = std::collections::HashMap::with_capacity(tuples.len());
+        let mut collision: Option<String> = None;
+        let mut wrong: Option<String> = None;
+        let mut runs = instr::runs(fname);
+        for (pos, &i) in order.iter().enumerate() {
+            let t = &tuples[i];
+            let r = call(t);
+            let now = instr::runs(fname);
+            let ran = now - runs;
+            runs = now;
+            let e = twin(t);
+            let differs = r != e;
+            if let Some(j) = owner.get(&e) {
+                found.push(Fail { prop: "HARNESS", what: format!("{fname}: the twin does not separate {:?} and {t:?}", tuples[*j]) });
+                return found;
+            }
+            if ran != 1 && collision.is_none() {
+                let from = match owner.get(&r) {
+                    Some(j) if *j != i => format!("served the value of {fname}{:?}, which was called before", tuples[*j]),
+                    _ => format!("served {r:?}, which is the value of no tuple called before"),
+                };
+                collision = Some(format!(
+                    "flavour={flavour} {fname}{t:?} (call {} of {}, every tuple is called once, the cache is unbounded): the body ran {ran} times, expected 1: {from}: the two tuples share a cache entry",
+                    pos + 1,
+                    tuples.len()
+                ));
+            } else if ran == 1 && differs && wrong.is_none() {
+                wrong = Some(format!("flavour={flavour} {fname}{t:?}: the body ran and the call returned {r:?}, the uncached twin gives {e:?}"));
+            }
+            owner.insert(e, i);
+        }
+        if collision.is_some() || wrong.is_some() {
+            // second pass: everything is cached now; who is served a value that is not its own?
+            let mut strangers = 0usize;
+            let mut first: Option<String> = None;
+            for t in tuples {
+                let r = call(t);
+                let e = twin(t);
+                if r != e {
+                    strangers += 1;
+                    if first.is_none() {
+                        let whose = owner.get(&r).map_or("no tuple".to_string(), |j| format!("{fname}{:?}", tuples[*j]));
+                        first = Some(format!("{fname}{t:?} is served the value of {whose}"));
+                    }
+                }
+            }
+            let second = format!("second pass over all {} tuples: {strangers} are served a value that is not their own (first: {})", tuples.len(), first.unwrap_or("none".to_string()));
+            if let Some(c) = collision {
+                found.push(Fail { prop: "C02", what: format!("{c}; {second}") });
+            }
+            if let Some(w) = wrong {
+                found.push(Fail { prop: "C01", what: format!("{w}; {second}") });
+            }
+        }
+        let n = instr::runs(fname);
+        if found.is_empty() && n != tuples.len() as u64 {
+            found.push(Fail { prop: "C02", what: format!("flavour={flavour} {fname}: the body ran {n} times for {} distinct tuples", tuples.len()) });
+        }
+        found
+    });
+    // the caches of the other two flavours are process-global: give the memory back
+    if kind != Kind::Thread {
+        clear_cache(fname);
+    }
+    for fl in findings {
+        if fl.prop == "HARNESS" {
+            return Err(fl);
+        }
+        ctx.report(fname, fl)?;
+    }
+    Ok(())
+}
+
+fn exhaustive_small_strings(fl: &Fl, ctx: &Ctx) -> Result<(), Fail> {
+    let kind = fl.kind;
+    const ALPHABET: [char; 4] = ['a', '|', '"', '\\'];
+    let all5 = strings_upto(&ALPHABET, 5);
+
+    // (a, b) with len(a) + len(b) <= 5: 7737 tuples
+    let mut pairs: Vec<(String, String)> = Vec::new();
+    for a in &all5 {
+        let la = a.chars().count();
+        for b in all5.iter().take_while(|b| la + b.chars().count() <= 5) {
+            pairs.push((a.clone(), b.clone()));
+        }
+    }
+    if pairs.len() != 7737 {
+        return harness(format!("exhaustive_small_strings: {} pairs enumerated, 7737 expected", pairs.len()));
+    }
+    // receivers 1, 12, 2 x every string of length <= 4
+    let all4 = strings_upto(&ALPHABET, 4);
+    let mut meth: Vec<(u32, String)> = Vec::new();
+    for id in [1u32, 12, 2] {
+        for a in &all4 {
+            meth.push((id, a.clone()));
+        }
+    }
+
+    // Option: the alphabet cannot spell "None" / "Some(": those two literal strings join the pool
+    let mut pool = strings_upto(&ALPHABET, 2);
+    pool.push(s("None"));
+    pool.push(s("Some(\"a\")"));
+    let mut opts: Vec<(Option<String>, String)> = Vec::new();
+    for a in std::iter::once(None).chain(pool.iter().cloned().map(Some)) {
+        for b in &pool {
+            opts.push((a.clone(), b.clone()));
+        }
+    }
+
+    // The four functions have caches of their own: one thread each (every cache still sees ONE sequential history).
+    // The sync engines look a new key up in the whole queue on every store, 7737 stores are 30 million comparisons.
+    let results: Vec<Result<(), Fail>> = std::thread::scope(|sc| {
+        let (pairs, meth, opts) = (&pairs, &meth, &opts);
+        let hs = vec![
+            sc.spawn(move || check_exhaustive(ctx, kind, sel_xs2(kind), pairs, &|t| tw_xs2(&t.0, &t.1), 0xE5_01)),
+            sc.spawn(move || check_exhaustive(ctx, kind, sel_xs2r(kind), pairs, &|t| tw_xs2(&t.0, &t.1), 0xE5_02)),
+            sc.spawn(move || check_exhaustive(ctx, kind, sel_xm(kind), meth, &|t| tw_xm(t.0, &t.1), 0xE5_03)),
+            sc.spawn(move || check_exhaustive(ctx, kind, sel_xo(kind), opts, &|t| tw_xo(&t.0, &t.1), 0xE5_04)),
+        ];
+        hs.into_iter()
+            .map(|h| match h.join() {
+                Ok(r) => r,
+                Err(p) => std::panic::resume_unwind(p),
+            })
+            .collect()
+    });
+    for r in results {
+        r?;
+    }
+    Ok(())
 }
 
 // ------------------------------------------------------------------------------------------------
@@ -2355,8 +2595,9 @@ struct Scenario {
 fn scenarios() -> Vec<Scenario> {
     let mut v: Vec<Scenario> = Vec::new();
     type PerFlavour = fn(&Fl, &Ctx) -> Result<(), Fail>;
-    let table: [(&str, &'static [&'static str], PerFlavour); 5] = [
+    let table: [(&str, &'static [&'static str], PerFlavour); 6] = [
         ("distinct_tuples", &["C02", "C01"], distinct_tuples),
+        ("exhaustive_small_strings", &["C02", "C01"], exhaustive_small_strings),
         ("computed_once", &["C03"], computed_once),
         ("err_not_cached", &["C09"], err_not_cached),
         ("cache_if", &["C10"], cache_if),
